@@ -375,8 +375,8 @@ func c12R4(c *Ctx, r *Report) {
 		ok := len(okEdges) > 0 && DominatedBy(fn, p, NewAvoid().AddEdge(okEdges...))
 		r.Check("C12-R4", fmt.Sprintf("fn=auth.compareHashAndPassword cache-put #%d after=bcrypt-ok", i+1), c.Pos(p.Pos()), ok, "dominated by CompareHashAndPassword == nil", "a password can be remembered as verified without the full bcrypt comparison succeeding")
 		key := p.Common().Args[0]
-		dH := DependsOn(key, func(v ssa.Value) bool { return isParam(v, 1) })
-		dP := DependsOn(key, func(v ssa.Value) bool { return isParam(v, 2) })
+		dH := c12KeyDependsOnParam(key, 1)
+		dP := c12KeyDependsOnParam(key, 2)
 		r.Check("C12-R4", fmt.Sprintf("fn=auth.compareHashAndPassword cache-put #%d key=f(hash,password)", i+1), c.Pos(p.Pos()), dH && dP, "key depends on hash and password", "cache key does not depend on both the hash and the password: a hit for one user/password would vouch for another")
 	}
 	// true-returns: either cache hit on that same key, or bcrypt ok
@@ -386,8 +386,8 @@ func c12R4(c *Ctx, r *Report) {
 		pos, _ := EdgesOnValue(fn, func(v ssa.Value) bool { return v == cv })
 		hitEdges = append(hitEdges, pos...)
 		key := call.Common().Args[0]
-		dH := DependsOn(key, func(v ssa.Value) bool { return isParam(v, 1) })
-		dP := DependsOn(key, func(v ssa.Value) bool { return isParam(v, 2) })
+		dH := c12KeyDependsOnParam(key, 1)
+		dP := c12KeyDependsOnParam(key, 2)
 		r.Check("C12-R4", "fn=auth.compareHashAndPassword cache-lookup key=f(hash,password)", c.Pos(call.Pos()), dH && dP, "lookup key depends on hash and password", "cache lookup key does not depend on both the hash and the password")
 	}
 	n := 0
@@ -594,4 +594,46 @@ func c12R6(c *Ctx, r *Report) {
 			}
 		}
 	}
+}
+
+// c12KeyDependsOnParam: key derives from parameter `param` of the enclosing function; when key is the result of a helper with a
+// body (authKey), the helper's result must itself derive from the argument that carries the parameter.
+func c12KeyDependsOnParam(key ssa.Value, param int) bool {
+	isP := func(v ssa.Value) bool { return isParam(v, param) }
+	if cc, ok := unwrapLoadFree(key).(*ssa.Call); ok {
+		if cal := cc.Call.StaticCallee(); cal != nil && len(cal.Blocks) > 0 {
+			for i, a := range cc.Call.Args {
+				if !DependsOn(a, isP) {
+					continue
+				}
+				through := true
+				// objects fed with the parameter (hash.Write(password)): a result derived from such an object derives from it
+				fed := map[ssa.Value]bool{}
+				EachInstr(cal, false, func(in ssa.Instruction) {
+					if ci, ok := in.(ssa.CallInstruction); ok {
+						cm := ci.Common()
+						for _, x := range cm.Args {
+							if isParam(x, i) {
+								if cm.IsInvoke() {
+									fed[cm.Value] = true
+								} else if len(cm.Args) > 0 && !isParam(cm.Args[0], i) {
+									fed[cm.Args[0]] = true
+								}
+							}
+						}
+					}
+				})
+				for _, ret := range Returns(cal) {
+					if !DependsOn(ret.Results[0], func(v ssa.Value) bool { return isParam(v, i) || fed[v] }) {
+						through = false
+					}
+				}
+				if through {
+					return true
+				}
+			}
+			return false
+		}
+	}
+	return DependsOn(key, isP)
 }
